@@ -1,6 +1,7 @@
 //! Verification harness for scylla-rust-driver: runs the REAL implementation on line-protocol cases.
 //! One module per property; `hx` (src/bin/hx.rs) dispatches.
 
+pub mod mocknode;
 pub mod rng;
 pub mod util;
 
